@@ -6,7 +6,7 @@ from . import tlc
 from .common import scratch
 
 
-def validate(rep, module, events, constants, label, batch=400):
+def validate(rep, module, events, constants, label, batch=400, spec="Spec"):
     """Returns the list of rejected events (indices into `events`).  Machinery problems -> rep.fail."""
     rejected = []
     for b0 in range(0, len(events), batch):
@@ -16,7 +16,7 @@ def validate(rep, module, events, constants, label, batch=400):
             for e in chunk:
                 f.write(json.dumps(e) + "\n")
         cfg = os.path.join(scratch(), "%s-%d.cfg" % (label, b0))
-        tlc.write_cfg(cfg, constants, invariants=["Verdict"])
+        tlc.write_cfg(cfg, constants, invariants=["Verdict"], spec=spec)
         res = tlc.run_one(module, cfg, 1, "%s-%d" % (label, b0), env_extra={"TRACE_FILE": path},
                           coverage=False, timeout=3000)
         rep.add_tlc(res, label)
